@@ -72,18 +72,21 @@ theorem downsample_chunk_invariant (divFs : ρ → Nat → ρ) (twoD : Bool) (q 
   have := downsample_run divFs twoD q hq ann cs [] s s {} (Or.inl ⟨rfl, rfl⟩) hq (Or.inr ⟨rfl, rfl, rfl⟩)
   simpa using this
 
-/-- `decimate(q)` (as repaired): filter the whole signal, keep every `q`-th sample -/
-theorem decimate_chunk_invariant (m : Mealy α β S) (zi : S) (divFs : ρ → Nat → ρ) (q : Nat) (hq : 0 < q)
+/-- `decimate(q)` (as repaired): filter the whole signal, keep every `q`-th sample.  `lf` is SciPy's
+`lfilter`: the state machine `m` on non-empty input, an **arbitrary** final state on empty input
+(`LfilterIs`); empty chunks anywhere in the stream are covered. -/
+theorem decimate_chunk_invariant (m : Mealy α β S) (lf : S → List α → List β × S) (hlf : LfilterIs lf m)
+    (zi : S) (divFs : ρ → Nat → ρ) (q : Nat) (hq : 0 < q)
     (ann : Ann ρ χ μ) (s : Int) (cs : List (List α)) :
-    ∃ bs, outputs (runStage (decimateStep m zi divFs q) none (stream ann s cs)) = .ok bs
+    ∃ bs, outputs (runStage (decimateStep lf zi divFs q) none (stream ann s cs)) = .ok bs
       ∧ Emits bs (stride q ((m.run zi cs.flatten).1.take (cs.flatten.length / q * q))) 1 s
           { ann with fs := divFs ann.fs q } := by
   cases cs with
   | nil => exact ⟨[], rfl, by simpa [Mealy.run, stride, strideAux] using Emits.nil _ _ _⟩
   | cons c cs =>
-    have := decimate_run m zi divFs q hq ann (c :: cs) [] s s zi none (Or.inl ⟨rfl, rfl⟩) hq
-    have e : runStage (decimateStep m zi divFs q) none (stream ann s (c :: cs))
-        = runStage (decimateStep m zi divFs q) (some { zf := zi, rem := none, s0 := s }) (stream ann s (c :: cs)) := by
+    have := decimate_run m lf hlf zi divFs q hq ann (c :: cs) [] s s zi none (Or.inl ⟨rfl, rfl⟩) hq
+    have e : runStage (decimateStep lf zi divFs q) none (stream ann s (c :: cs))
+        = runStage (decimateStep lf zi divFs q) (some { zf := zi, rem := none, s0 := s }) (stream ann s (c :: cs)) := by
       rw [stream_cons]; rfl
     rw [e]
     simpa using this
@@ -124,23 +127,69 @@ theorem derivative_chunk_invariant (init : α) (d : α → α → β) (ann : Ann
       rw [stream_cons]; rfl
     rw [e]; exact this
 
-/-- `iirfilter`: the Mealy machine (lfilter) started in the state scaled by the very first sample,
-run over the whole signal; annotations (incl. channel and metadata, as repaired) kept -/
-theorem iirfilter_chunk_invariant (m : Mealy α β S) (init : α → S) (ann : Ann ρ χ μ) (s : Int)
+/-- `iirfilter`: the state machine `m` (what `lfilter` computes on non-empty input, `LfilterIs`) started in
+the state scaled by the very first sample, run over the whole signal; annotations (incl. channel and
+metadata, as repaired) kept.  Empty chunks after the first are covered although `lfilter` returns an
+arbitrary state for them. -/
+theorem iirfilter_chunk_invariant (m : Mealy α β S) (lf : S → List α → List β × S) (hlf : LfilterIs lf m)
+    (init : α → S) (ann : Ann ρ χ μ) (s : Int)
     (x0 : α) (c0 : List α) (cs : List (List α)) :
-    ∃ bs, outputs (runStage (iirStep m init) none (stream ann s ((x0 :: c0) :: cs))) = .ok bs
+    ∃ bs, outputs (runStage (iirStep lf init) none (stream ann s ((x0 :: c0) :: cs))) = .ok bs
       ∧ Emits bs (m.run (init x0) ((x0 :: c0) :: cs).flatten).1 1 s ann := by
-  have := iir_run m init ann ((x0 :: c0) :: cs) (init x0) s
-  have e : runStage (iirStep m init) none (stream ann s ((x0 :: c0) :: cs))
-      = runStage (iirStep m init) (some (init x0)) (stream ann s ((x0 :: c0) :: cs)) := by
+  have := iir_run m lf hlf init ann ((x0 :: c0) :: cs) (init x0) s
+  have e : runStage (iirStep lf init) none (stream ann s ((x0 :: c0) :: cs))
+      = runStage (iirStep lf init) (some (init x0)) (stream ann s ((x0 :: c0) :: cs)) := by
     rw [stream_cons]; rfl
   rw [e]; exact this
 
 /-- domain note: an empty first chunk cannot initialise the filter state (`ValueError`) -/
-theorem iirfilter_empty_first_chunk (m : Mealy α β S) (init : α → S) (ann : Ann ρ χ μ) (s : Int)
+theorem iirfilter_empty_first_chunk (lf : S → List α → List β × S) (init : α → S) (ann : Ann ρ χ μ) (s : Int)
     (cs : List (List α)) :
-    outputs (runStage (iirStep m init) none (stream ann s ([] :: cs))) = .error .valueError := by
+    outputs (runStage (iirStep lf init) none (stream ann s ([] :: cs))) = .error .valueError := by
   rw [stream_cons]; rfl
+
+/-- the empty-chunk case spelled out: a zero-length chunk inserted anywhere (after a non-empty first chunk
+for `iirfilter`, anywhere for `decimate`) changes neither the concatenated output nor the first `s0` nor
+the annotations, whatever final state `lfilter` reports for the empty input -/
+theorem lfilter_stages_empty_chunk_invariant (m : Mealy α β S) (lf : S → List α → List β × S)
+    (hlf : LfilterIs lf m) (init : α → S) (zi : S) (divFs : ρ → Nat → ρ) (q : Nat) (hq : 0 < q)
+    (ann : Ann ρ χ μ) (s : Int) (x0 : α) (c0 : List α) (pre post : List (List α)) :
+    (∃ bs bs' x, outputs (runStage (iirStep lf init) none (stream ann s ((x0 :: c0) :: pre ++ [] :: post))) = .ok bs
+      ∧ outputs (runStage (iirStep lf init) none (stream ann s ((x0 :: c0) :: pre ++ post))) = .ok bs'
+      ∧ Emits bs x 1 s ann ∧ Emits bs' x 1 s ann)
+    ∧ (∃ bs bs' x, outputs (runStage (decimateStep lf zi divFs q) none (stream ann s (pre ++ [] :: post))) = .ok bs
+      ∧ outputs (runStage (decimateStep lf zi divFs q) none (stream ann s (pre ++ post))) = .ok bs'
+      ∧ Emits bs x 1 s { ann with fs := divFs ann.fs q }
+      ∧ Emits bs' x 1 s { ann with fs := divFs ann.fs q }) := by
+  constructor
+  · obtain ⟨bs, h1, h2⟩ := iirfilter_chunk_invariant m lf hlf init ann s x0 c0 (pre ++ [] :: post)
+    obtain ⟨bs', h1', h2'⟩ := iirfilter_chunk_invariant m lf hlf init ann s x0 c0 (pre ++ post)
+    refine ⟨bs, bs', _, h1, h1', h2, ?_⟩
+    simpa using h2'
+  · obtain ⟨bs, h1, h2⟩ := decimate_chunk_invariant m lf hlf zi divFs q hq ann s (pre ++ [] :: post)
+    obtain ⟨bs', h1', h2'⟩ := decimate_chunk_invariant m lf hlf zi divFs q hq ann s (pre ++ post)
+    refine ⟨bs, bs', _, h1, h1', h2, ?_⟩
+    simpa using h2'
+
+/-- why the guard is needed (the recorded finding `C12-lfilter-empty-chunk`, repaired by
+notes/C12_fix_5.diff): a stage that adopts the final state `lfilter` reports for an empty chunk is not
+chunk-invariant for a kernel that is correct on every non-empty input.  Kernel: running sum, state 99 after
+an empty input. -/
+theorem lfilter_unguarded_not_chunk_invariant :
+    ∃ (m : Mealy Nat Nat Nat) (lf : Nat → List Nat → List Nat × Nat), LfilterIs lf m ∧
+      let unguarded : Option Nat → PD Nat Unit Unit Unit → Except Err (List (PD Nat Unit Unit Unit) × Option Nat) :=
+        fun st y => match iirInit (fun _ => 0) st y.data with
+          | .error e => .error e
+          | .ok z => .ok ([y.withData (lf z y.data).1], some (lf z y.data).2)
+      (outputs (runStage unguarded none (stream ⟨(), (), ()⟩ 0 [[1], [], [2]]))).toOption.map outData
+        ≠ (outputs (runStage unguarded none (stream ⟨(), (), ()⟩ 0 [[1], [2]]))).toOption.map outData
+      ∧ (outputs (runStage (iirStep lf (fun _ => 0)) none (stream ⟨(), (), ()⟩ 0 [[1], [], [2]]))).toOption.map outData
+        = (outputs (runStage (iirStep lf (fun _ => 0)) none (stream ⟨(), (), ()⟩ 0 [[1], [2]]))).toOption.map outData := by
+  refine ⟨⟨fun s a => (s + a, s + a)⟩, fun z x => if x = [] then ([], 99) else
+    (⟨fun s a => (s + a, s + a)⟩ : Mealy Nat Nat Nat).run z x, ⟨?_, ?_⟩, ?_⟩
+  · intro z x hx; simp [hx]
+  · intro z; simp
+  · decide
 
 /-- `transform(f)` with a pointwise `f`: `f` applied to every sample of the whole signal -/
 theorem transform_pointwise_chunk_invariant (g : α → β) (ann : Ann ρ χ μ) (s : Int) (cs : List (List α)) :
@@ -188,15 +237,95 @@ theorem auto_th_chunk_invariant (thr : List α → τ) (cmp : τ → α → β) 
     rw [e]
     simpa using this
 
-/-! ### event_rate (time base only; the window counts are covered by the differential run + oracle) -/
+/-! ### event_rate -/
 
-/-- `event_rate`: for every sequence of `Events` objects on which the stage does not raise, the
-emitted blocks are contiguous: the first starts at `start + block_size/2` (field = twice that) and each
-next one starts where the previous ended.  **Partial**: says nothing about the rates themselves. -/
-theorem event_rate_blocks_contiguous_partial (size step : Nat) (e0 : Ev) (es : List Ev)
-    (bs : List (Nat × List Nat))
-    (h : outputs (runStage (eventRateStep size step) none (e0 :: es)) = .ok bs) :
-    ContigRate (2 * e0.start + size) bs := by
+/-- `event_rate(block_size, block_step)`, value theorem.  For **every chunking** of a well-formed event
+stream into at least two adjacent `Events` objects (`WFEvents`: adjacent spans, empty spans allowed, one
+sampling rate, every event inside the span of the object that carries it, events listed in **any order**):
+the stage never raises, and the concatenation of the emitted count blocks is the whole-stream
+computation `rateSpec` — entry `j` is the number of events of the whole stream in
+`[start + j·step, start + j·step + size)`, for exactly the windows `j` with
+`start + j·step + size < end` (`rateSpec_length`, `rateSpec_window_completed`, `rateSpec_getElem`).
+The emitted rate is `count / block_size * fs` (a fixed function of the count).  Blocks are contiguous from
+`s0 = start + block_size/2` (`s0` field = twice that, one unit per rate sample: `u = 2`), and every block
+carries `fs/block_step`, the default channel and empty metadata. -/
+theorem event_rate_chunk_invariant [DecidableEq ρ] (divFs : ρ → Nat → ρ) (chDef : χ) (mdEmpty : μ)
+    (size step : Nat) (hs : 0 < step) (fs : ρ) (e0 : Ev ρ) (es : List (Ev ρ)) (hne : es ≠ [])
+    (hwf : WFEvents fs e0.start (e0 :: es)) :
+    ∃ bs, outputs (runStage (eventRateStep divFs chDef mdEmpty size step) none (e0 :: es)) = .ok bs
+      ∧ Emits bs (rateSpec size step e0.start (endOf e0.start (e0 :: es)) (allEvents (e0 :: es)))
+          2 (2 * e0.start + size : Nat) ⟨divFs fs step, chDef, mdEmpty⟩ := by
+  obtain ⟨_, _, hfs, hev, hwf'⟩ := hwf
+  have h0 : step ≠ 0 := Nat.ne_of_gt hs
+  obtain ⟨bs, hrun, hem⟩ := eventRate_run divFs chDef mdEmpty size step hs fs (divFs fs step) es e0.events
+    e0.start e0.stop (2 * e0.start + size) hwf' (fun x hx => (hev x hx).2) (fun h => absurd h hne)
+  refine ⟨bs, ?_, ?_⟩
+  · have hstep : eventRateStep divFs chDef mdEmpty size step none e0
+        = .ok ([], some ⟨⟨e0.events, e0.start, e0.stop, fs⟩, 2 * e0.start + size, divFs fs step⟩) := by
+      simp only [eventRateStep, h0, if_false, ← hfs]
+    simp only [runStage, hstep]
+    cases hr : runStage (eventRateStep divFs chDef mdEmpty size step)
+        (some ⟨⟨e0.events, e0.start, e0.stop, fs⟩, 2 * e0.start + size, divFs fs step⟩) es with
+    | error e => simp [hr, outputs] at hrun
+    | ok p => obtain ⟨os, s''⟩ := p; simp [hr, outputs] at hrun ⊢; exact hrun
+  · simpa [endOf, allEvents] using hem
+
+/-- the whole-stream definition has one entry per completed window … -/
+theorem rateSpec_length (size step a b : Nat) (all : List Nat) :
+    (rateSpec size step a b all).length = nWindows size step a b := by
+  simp [rateSpec]
+
+/-- … the completed windows are exactly those satisfying the stage's loop condition
+`events.range_samples > block_size` when the whole span `[a, b)` is known … -/
+theorem rateSpec_window_completed (size step a b : Nat) (hs : 0 < step) (j : Nat) :
+    j < nWindows size step a b ↔ a + j * step + size < b :=
+  nWindows_spec hs j
+
+/-- … and entry `j` counts the events `x` of the stream (a multiset: any listing order) with
+`a + j·step ≤ x < a + j·step + size` -/
+theorem rateSpec_getElem (size step a b : Nat) (all : List Nat) (j : Nat)
+    (hj : j < (rateSpec size step a b all).length) :
+    (rateSpec size step a b all)[j]
+      = all.countP (fun x => decide (a + j * step ≤ x) && decide (x < a + j * step + size)) := by
+  simp only [rateSpec, List.getElem_map, List.getElem_range]
+  rfl
+
+/-- the whole-stream value depends only on the multiset of events -/
+theorem rateSpec_perm (size step a b : Nat) {all all' : List Nat} (h : all.Perm all') :
+    rateSpec size step a b all = rateSpec size step a b all' := by
+  unfold rateSpec
+  apply List.map_congr_left
+  intro j _
+  exact h.countP_eq _
+
+/-- chunk invariance: two chunkings (each into ≥ 2 objects, with possibly different listing orders) of
+the same event stream — same span, same multiset of events — give the same concatenated output, the same
+first `s0` and the same annotations -/
+theorem event_rate_same_for_all_chunkings [DecidableEq ρ] (divFs : ρ → Nat → ρ) (chDef : χ) (mdEmpty : μ)
+    (size step : Nat) (hs : 0 < step) (fs : ρ) (e0 e0' : Ev ρ) (es es' : List (Ev ρ))
+    (hne : es ≠ []) (hne' : es' ≠ [])
+    (hwf : WFEvents fs e0.start (e0 :: es)) (hwf' : WFEvents fs e0'.start (e0' :: es'))
+    (hstart : e0.start = e0'.start) (hend : endOf e0.start (e0 :: es) = endOf e0'.start (e0' :: es'))
+    (hperm : (allEvents (e0 :: es)).Perm (allEvents (e0' :: es'))) :
+    ∃ bs bs' x, outputs (runStage (eventRateStep divFs chDef mdEmpty size step) none (e0 :: es)) = .ok bs
+      ∧ outputs (runStage (eventRateStep divFs chDef mdEmpty size step) none (e0' :: es')) = .ok bs'
+      ∧ Emits bs x 2 (2 * e0.start + size : Nat) ⟨divFs fs step, chDef, mdEmpty⟩
+      ∧ Emits bs' x 2 (2 * e0.start + size : Nat) ⟨divFs fs step, chDef, mdEmpty⟩ := by
+  obtain ⟨bs, h1, h2⟩ := event_rate_chunk_invariant divFs chDef mdEmpty size step hs fs e0 es hne hwf
+  obtain ⟨bs', h1', h2'⟩ := event_rate_chunk_invariant divFs chDef mdEmpty size step hs fs e0' es' hne' hwf'
+  refine ⟨bs, bs', _, h1, h1', h2, ?_⟩
+  have hend2 : endOf e0.start (e0' :: es') = endOf e0.start (e0 :: es) := by
+    simpa [endOf] using hend.symm
+  rw [← hstart, hend2, ← rateSpec_perm size step _ _ hperm] at h2'
+  exact h2'
+
+/-- `event_rate` on **any** sequence of `Events` objects (events may lie outside the spans): whenever the
+stage does not raise, the emitted blocks are contiguous from `start + block_size/2` and carry
+`fs/block_step` of the first object, default channel, empty metadata -/
+theorem event_rate_blocks_contiguous [DecidableEq ρ] (divFs : ρ → Nat → ρ) (chDef : χ) (mdEmpty : μ)
+    (size step : Nat) (e0 : Ev ρ) (es : List (Ev ρ)) (bs : List (PD Nat ρ χ μ))
+    (h : outputs (runStage (eventRateStep divFs chDef mdEmpty size step) none (e0 :: es)) = .ok bs) :
+    Contig 2 (2 * e0.start + size : Nat) bs ∧ ∀ b ∈ bs, b.ann = ⟨divFs e0.fs step, chDef, mdEmpty⟩ := by
   obtain ⟨o, s', bs', hstep, hrest, rfl⟩ := outputs_cons_ok h
   unfold eventRateStep at hstep
   split at hstep
@@ -204,16 +333,25 @@ theorem event_rate_blocks_contiguous_partial (size step : Nat) (e0 : Ev) (es : L
   · injection hstep with hstep
     injection hstep with h1 h2
     subst h1 h2
-    exact eventRate_contig size step es _ _ hrest
+    exact eventRate_contig divFs chDef mdEmpty size step es _ _ hrest
 
-/-- `event_rate`: the first `Events` object is only buffered; a gap between two objects raises -/
-theorem event_rate_first_buffered_and_gap_raises (size step : Nat) (hs : 0 < step) (e0 e1 : Ev) :
-    outputs (runStage (eventRateStep size step) none [e0]) = .ok []
-    ∧ (e1.start ≠ e0.stop → outputs (runStage (eventRateStep size step) none [e0, e1]) = .error .valueError) := by
+/-- `event_rate`: the first `Events` object is only buffered (a stream delivered as a single object emits
+nothing); a gap between two objects, or a different sampling rate, raises `ValueError` -/
+theorem event_rate_first_buffered_and_gap_raises [DecidableEq ρ] (divFs : ρ → Nat → ρ) (chDef : χ) (mdEmpty : μ)
+    (size step : Nat) (hs : 0 < step) (e0 e1 : Ev ρ) :
+    outputs (runStage (eventRateStep divFs chDef mdEmpty size step) none [e0]) = .ok []
+    ∧ (e1.start ≠ e0.stop ∨ e1.fs ≠ e0.fs →
+        outputs (runStage (eventRateStep divFs chDef mdEmpty size step) none [e0, e1]) = .error .valueError) := by
   have h0 : step ≠ 0 := Nat.ne_of_gt hs
   refine ⟨by simp [runStage, eventRateStep, h0, outputs], ?_⟩
   intro hne
-  simp [runStage, eventRateStep, h0, hne, outputs]
+  by_cases h1 : e1.start = e0.stop
+  · have h2 : e1.fs ≠ e0.fs := by
+      rcases hne with h | h
+      · exact absurd h1 h
+      · exact h
+    simp [runStage, eventRateStep, h0, h1, h2, outputs]
+  · simp [runStage, eventRateStep, h0, h1, outputs]
 
 /-! ## non-vacuity: concrete streams (chunks shorter than q / block, length not divisible) -/
 
@@ -225,7 +363,7 @@ example : outputs (runStage (downsampleStep (fun (r : Nat) q => r / q) false 3) 
     = .ok [⟨[0], 6, ⟨300, (), ()⟩⟩, ⟨[3], 7, ⟨300, (), ()⟩⟩] := by rfl
 
 /-- running sum as a stand-in for `lfilter`: q = 3, chunks 5 + 5 (the recon counterexample of the unrepaired code) -/
-example : outputs (runStage (decimateStep (⟨fun s a => (s + a, s + a)⟩ : Mealy Nat Nat Nat) 0 (fun (r : Nat) q => r / q) 3) none
+example : outputs (runStage (decimateStep (⟨fun s a => (s + a, s + a)⟩ : Mealy Nat Nat Nat).run 0 (fun (r : Nat) q => r / q) 3) none
       (stream (⟨900, (), ()⟩ : Ann Nat Unit Unit) 0 [[1, 1, 1, 1, 1], [1, 1, 1, 1, 1]]))
     = .ok [⟨[1], 0, ⟨300, (), ()⟩⟩, ⟨[4, 7], 1, ⟨300, (), ()⟩⟩] := by rfl
 
@@ -240,18 +378,51 @@ example : outputs (runStage (derivativeStep 0 (fun (p c : Int) => c - p)) none
       (stream (⟨(), (), ()⟩ : Ann Unit Unit Unit) 5 [[1, 4], [], [9]]))
     = .ok [⟨[1, 3], 5, ⟨(), (), ()⟩⟩, ⟨[], 7, ⟨(), (), ()⟩⟩, ⟨[5], 7, ⟨(), (), ()⟩⟩] := by rfl
 
-example : outputs (runStage (iirStep (⟨fun s a => (s + a, s + a)⟩ : Mealy Nat Nat Nat) (fun x0 => 10 * x0)) none
+example : outputs (runStage (iirStep (⟨fun s a => (s + a, s + a)⟩ : Mealy Nat Nat Nat).run (fun x0 => 10 * x0)) none
       (stream (⟨(), (), ()⟩ : Ann Unit Unit Unit) 0 [[1, 2], [3]]))
     = .ok [⟨[11, 13], 0, ⟨(), (), ()⟩⟩, ⟨[16], 2, ⟨(), (), ()⟩⟩] := by rfl
+
+/-- a kernel like SciPy's: running sum on non-empty input, final state 99 ("garbage") on empty input;
+with the guard an empty chunk in the middle is harmless (iirfilter, and decimate q = 2) -/
+example : LfilterIs (fun (z : Nat) (x : List Nat) => if x = [] then ([], 99) else
+    (⟨fun s a => (s + a, s + a)⟩ : Mealy Nat Nat Nat).run z x) ⟨fun s a => (s + a, s + a)⟩ :=
+  ⟨fun z x hx => by simp [hx], fun z => by simp⟩
+
+example : outputs (runStage (iirStep (fun (z : Nat) (x : List Nat) => if x = [] then ([], 99) else
+      (⟨fun s a => (s + a, s + a)⟩ : Mealy Nat Nat Nat).run z x) (fun x0 => 10 * x0)) none
+      (stream (⟨(), (), ()⟩ : Ann Unit Unit Unit) 0 [[1, 2], [], [3]]))
+    = .ok [⟨[11, 13], 0, ⟨(), (), ()⟩⟩, ⟨[], 2, ⟨(), (), ()⟩⟩, ⟨[16], 2, ⟨(), (), ()⟩⟩] := by rfl
+
+example : outputs (runStage (decimateStep (fun (z : Nat) (x : List Nat) => if x = [] then ([], 99) else
+      (⟨fun s a => (s + a, s + a)⟩ : Mealy Nat Nat Nat).run z x) 0 (fun (r : Nat) q => r / q) 2) none
+      (stream (⟨900, (), ()⟩ : Ann Nat Unit Unit) 0 [[], [1, 1, 1], [], [1]]))
+    = .ok [⟨[1], 0, ⟨450, (), ()⟩⟩, ⟨[3], 1, ⟨450, (), ()⟩⟩] := by rfl
 
 example : outputs (runStage (autoThStep (fun l => l.sum) (fun th (x : Nat) => decide (th ≤ x)) (fun th m => th :: m) 3) .first
       (stream (⟨(), (), ([] : List Nat)⟩ : Ann Unit Unit (List Nat)) 0 [[1, 2], [0, 9], [4]]))
     = .ok [⟨[false, false, false, true], 0, ⟨(), (), [3]⟩⟩, ⟨[true], 4, ⟨(), (), [3]⟩⟩] := by rfl
 
 /-- block_size 20, block_step 20; events at 3, 4, 25 in [0,30), then [30,100): rates 2,1,0,0 (the recon run) -/
-example : outputs (runStage (eventRateStep 20 20) none [⟨[3, 4, 25], 0, 30⟩, ⟨[], 30, 100⟩])
-    = .ok [(20, [2, 1, 0, 0])] := by rfl
+example : outputs (runStage (eventRateStep (fun (r : Nat) q => r / q) () () 20 20) none
+      [⟨[3, 4, 25], 0, 30, 1000⟩, ⟨[], 30, 100, 1000⟩])
+    = .ok [⟨[2, 1, 0, 0], 20, ⟨50, (), ()⟩⟩] := by rfl
 
-example : ContigRate 20 [(20, [2, 1, 0, 0]), (28, [5])] := ⟨rfl, rfl, trivial⟩
+/-- a well-formed stream in three objects: events listed out of order, an empty span, overlapping windows
+(size 4, step 2); the whole-stream value is the same as for the two-object chunking with another order -/
+example : WFEvents (1000 : Nat) 5 [⟨[9, 7, 6, 9], 5, 10, 1000⟩, ⟨[], 10, 10, 1000⟩, ⟨[12], 10, 16, 1000⟩] := by
+  simp [WFEvents]
+
+example : outputs (runStage (eventRateStep (fun (r : Nat) q => r / q) () () 4 2) none
+      [⟨[9, 7, 6, 9], 5, 10, 1000⟩, ⟨[], 10, 10, 1000⟩, ⟨[12], 10, 16, 1000⟩])
+    = .ok [⟨[2], 14, ⟨500, (), ()⟩⟩, ⟨[3, 3, 1], 16, ⟨500, (), ()⟩⟩] := by rfl
+
+example : outputs (runStage (eventRateStep (fun (r : Nat) q => r / q) () () 4 2) none
+      [⟨[6], 5, 7, 1000⟩, ⟨[9, 12, 9, 7], 7, 16, 1000⟩])
+    = .ok [⟨[2, 3, 3, 1], 14, ⟨500, (), ()⟩⟩] := by rfl
+
+example : rateSpec 4 2 5 16 [9, 7, 6, 9, 12] = [2, 3, 3, 1] := by decide
+
+example : Contig 2 20 [(⟨[2, 1, 0, 0], 20, ⟨(), (), ()⟩⟩ : PD Nat Unit Unit Unit), ⟨[5], 28, ⟨(), (), ()⟩⟩] :=
+  ⟨rfl, rfl, trivial⟩
 
 end Psi.Stages
